@@ -4,7 +4,8 @@ afterwards; the test suite and the demos were confirmed when the seed was record
 usage: python3 tools/seed_matrix.py [seed ids...]"""
 import json, os, re, subprocess, sys, time
 V = os.path.dirname(os.path.dirname(os.path.abspath(__file__)))
-EXTRA = {'C04_1': ['C04', 'C11'], 'C11_1': ['C11', 'C04'], 'C18_2': ['C16', 'C18'], 'C03_2': ['C03', 'C07'], 'C16_1': ['C16', 'C18']}
+EXTRA = {'C04_1': ['C04', 'C11'], 'C11_1': ['C11', 'C04'], 'C18_2': ['C16', 'C18'], 'C03_2': ['C03', 'C07'], 'C16_1': ['C16', 'C18'],
+         'C13_4': ['C13', 'C07'], 'C03_4': ['C03', 'C07'], 'C15_3': ['C15', 'C04']}
 seeds = sys.argv[1:] or sorted(d for d in os.listdir(os.path.join(V, 'seeded')) if os.path.isdir(os.path.join(V, 'seeded', d)))
 mpath = os.path.join(V, 'seeded', 'MATRIX.json')
 matrix = json.load(open(mpath)) if os.path.exists(mpath) else {}
